@@ -57,6 +57,44 @@ def flat(A):
     return [x for r in A for x in r]
 
 
+# ------------------------------------------------------------------ representation axis (audit 3): same values, other storage
+
+REPS = ('bool', 'uint8', 'int32', 'int64', 'float32', 'fortran', 'tview', 'strided')
+
+
+def rep_ok(A, rep):
+    """can `rep` hold the values of A exactly?"""
+    v = flat(A)
+    if rep == 'bool':
+        return all(x in (0, 1) for x in v)
+    if rep == 'uint8':
+        return all(x == int(x) and 0 <= x <= 255 for x in v)
+    if rep in ('int32', 'int64'):
+        return all(x == int(x) for x in v)
+    if rep == 'float32':
+        return all(float(np.float32(x)) == x for x in v)
+    return True
+
+
+def represent(A, rep):
+    M = np.array(A, dtype=float).reshape(len(A), len(A))      # (n = 0: a 0x0 matrix)
+    if rep in (None, 'float64'):
+        return M
+    if rep in ('bool', 'uint8', 'int32', 'int64', 'float32'):
+        R = M.astype(getattr(np, rep) if rep != 'bool' else bool)
+        assert np.array_equal(R.astype(float), M), 'representation must keep the values'
+        return R
+    if rep == 'fortran':
+        return np.asfortranarray(M)
+    if rep == 'tview':
+        return M.T.copy().T
+    if rep == 'strided':
+        B = np.zeros((2 * len(A), 2 * len(A)))
+        B[::2, ::2] = M
+        return B[::2, ::2]
+    raise ValueError(rep)
+
+
 def run_job(job):
     bct = import_bct()
     A = job['A']; n = len(A); scale = job.get('scale', 1)
@@ -70,13 +108,14 @@ def run_job(job):
 
     if job.get('kind') == 'probe':
         return run_probe(job, bct, out, viol)
-    Af = np.array(A, dtype=float)
+    rep = job.get('rep')
+    Af = represent(A, rep)
     Aint = [[int(round(x * scale)) for x in r] for r in A]       # what the Lean model sees (scale keeps zero/nonzero and equality)
     assert all(abs(x * scale - round(x * scale)) == 0 for x in flat(A))
     sym = all(A[i][j] == A[j][i] for i in range(n) for j in range(n))
     A0 = Af.copy()
     r = wcall(bct.get_components, Af)
-    r2 = wcall(bct.number_of_components, Af.copy()) if r[0] != 'timeout' else r
+    r2 = wcall(bct.number_of_components, represent(A, rep)) if r[0] != 'timeout' else r
     out['evals'] += 1
     st(r[0])
     if r[0] == 'timeout' or r2[0] == 'timeout':
@@ -98,7 +137,7 @@ def run_job(job):
     comps = [int(x) for x in np.asarray(comps).ravel()]
     sizes = [int(x) for x in np.asarray(sizes).ravel()]
     out['lines'].append((line, 'comps=%s sizes=%s' % (ints(comps), ints(sizes)), 'get_components'))
-    r3 = wcall(bct.get_components, Af.copy(), no_depend=True)      # the routine's only option (documented as ignored)
+    r3 = wcall(bct.get_components, represent(A, rep), no_depend=True)      # the routine's only option (documented as ignored)
     if r3[0] == 'ok' and not same_result(r3[1], r[1]):
         viol('get_components', 'option-no_depend-ignored', str(r3[1])[:200], str(r[1])[:200])
     elif r3[0] == 'exc':
@@ -136,14 +175,17 @@ def run_job(job):
     if job.get('dist', True):
         B = (np.array(A, dtype=float) != 0).astype(float)
         np.fill_diagonal(B, 0)
+        Bl = B.tolist()
         for name, f, pick in (('distance_bin', bct.distance_bin, lambda o: o),
                               ('breadthdist', bct.breadthdist, lambda o: o[1]),
                               ('reachdist', bct.reachdist, lambda o: o[1])):
-            rd = wcall(f, B.copy())
+            rd = wcall(f, represent(Bl, rep))
             if rd[0] == 'timeout':
                 out['timeouts'].append(name); continue
             if rd[0] == 'exc':
-                viol('get_components', 'agrees-' + name, rd[1], 'no exception'); continue
+                # the distance routine itself fails on this storage of the same network
+                viol(name, 'raises', {'exception': rd[1], 'storage': rep or 'float64', 'network': Bl}, 'no exception',
+                     {'storage': 'integer-or-bool' if rep in ('bool', 'uint8', 'int32', 'int64') else 'float'}); continue
             D = np.asarray(pick(rd[1]), dtype=float)
             out['dist']['agree:' + name] = out['dist'].get('agree:' + name, 0) + 1
             badp = [(x, y) for x in range(n) for y in range(n) if x != y and bool(np.isfinite(D[x, y])) != (comps[x] == comps[y])]
@@ -303,6 +345,7 @@ def pick(rs, N, m):
 def gen_jobs(rs, tier):
     th = tier == 'thorough'
     jobs = []
+    jobs.append({'A': [], 'fam': 'n=0', 'dist': False})      # bct returns two empty arrays / 0; the model mirrors it
     for n in range(1, 7):
         N = 1 << (n * (n - 1) // 2)
         for code in pick(rs, N, N if (th or n <= 5) else 10000):
@@ -349,6 +392,17 @@ def gen_jobs(rs, tier):
         else:
             A[i][j] = 0; A[j][i] = float(rs.choice([2.0 ** -34, 2.0 ** -28]))
         jobs.append({'A': A, 'fam': 'asymmetric', 'dist': False, 'scale': 2 ** 40 if kind >= 3 else 1})
+    # representation axis: a fraction of all cases again with the same values in another storage (dtype / layout)
+    extra = []
+    for q, j in enumerate(jobs):
+        if rs.rand() > (.3 if th else .12):
+            continue
+        ok_reps = [r_ for r_ in REPS if rep_ok(j['A'], r_)]
+        e = dict(j); e['rep'] = ok_reps[int(rs.randint(len(ok_reps)))]; e['fam'] = 'rep:' + e['rep']
+        if e['rep'] in ('bool', 'uint8', 'int32', 'int64', 'float32') and len(j['A']) <= 8:
+            e['dist'] = True                      # the three distance routines on the same storage
+        extra.append(e)
+    jobs += extra
     jobs += gen_probes(rs, 800 if th else 120)
     return jobs
 
